@@ -57,6 +57,9 @@ pub struct Binder {
     pub owner: Option<usize>,
     pub is_function: bool,
     pub is_reference: bool,
+    /// the declaration's value is a schema (usable as a content body)
+    #[serde(default)]
+    pub is_schema: bool,
 }
 
 #[derive(Clone, Debug)]
@@ -627,6 +630,7 @@ impl Cx<'_> {
             owner: self.cur_decl,
             is_function: false,
             is_reference: false,
+                    is_schema: false,
         });
         self.features.insert("rec");
         let mut v = vec![t("rec")];
@@ -999,6 +1003,7 @@ pub fn generate(rng: &mut Rng, cfg: &GenCfg) -> ProgramAst {
                     owner: None,
                     is_function: false,
                     is_reference: false,
+                    is_schema: false,
                 });
                 Some((q, b))
             } else {
@@ -1070,6 +1075,7 @@ pub fn generate(rng: &mut Rng, cfg: &GenCfg) -> ProgramAst {
                 owner: None,
                 is_function: is_fun,
                 is_reference: is_ref,
+                is_schema: is_schema && !is_fun,
             });
             if is_ref {
                 features.insert("reference");
@@ -1126,6 +1132,7 @@ pub fn generate(rng: &mut Rng, cfg: &GenCfg) -> ProgramAst {
                     owner: Some(d.binder),
                     is_function: false,
                     is_reference: false,
+                    is_schema: false,
                 });
                 toks.push(Tok {
                     text: pn.clone(),
